@@ -126,6 +126,9 @@ def replay(rec):
 
 
 def run_instance(p):
+    # whole quantised networks create hundreds of floor terms; the pairwise monotonicity lemmas that help the scalar-kernel checks only
+    # clutter the branch queries here (the outputs are compared syntactically first)
+    st.core.FLOOR_LEMMAS = False
     res = InstanceResult(p['id'])
     spec, wseed, selftest = p['spec'], p.get('wseed', 0), p.get('selftest', False)
     m, model, shape = mpslib.make_mps(spec, wseed)
@@ -179,6 +182,9 @@ def run_instance(p):
         if problems or n <= 3 or n % 8 == 0:
             # a model of the path: dyadic coefficients; inputs on a coarse grid first, any model otherwise
             mm = mpslib.grid_model(ex, sy, extra + [v * 2 == z3.ToReal(z3.Int(f'gx!{i}')) for i, v in enumerate(x.elems())], den=8, bound=2)
+            if mm is None:
+                res.inconclusive.append(f'path {n}: no model of the path condition within the time limit')
+                continue
             alphas, xv = mpslib.values_of(mm, sy), [st.model_value(mm, v) for v in x.elems()]
         if not problems:
             if n <= 3 or n % 8 == 0:
